@@ -1304,6 +1304,75 @@ fn parse_arguments(arguments: &[OsString], cwd: &Path) -> CompilerArguments<Pars
     })
 }
 
+// Verification hook H7 (guard: --cfg sccache_verif): the private rustc argument parser, rendered as text.
+// One line: `not_compilation`, `cannot_cache <why>` or `ok <field>=<value> ...`; byte strings in hex (`e` = empty), lists
+// comma separated (`-` = empty). `args` is what `generate_hash_key` goes on to use: the flag (or raw argument) of every
+// parsed argument and the re-rendered value (`into_arg_os_string`), `flag:value` or `flag:~` when there is no value.
+#[cfg(sccache_verif)]
+pub fn verif_parse_arguments(arguments: &[OsString], cwd: &Path) -> String {
+    use std::os::unix::ffi::OsStrExt;
+    fn hx(b: &[u8]) -> String {
+        if b.is_empty() {
+            "e".into()
+        } else {
+            b.iter().map(|x| format!("{:02x}", x)).collect()
+        }
+    }
+    fn list(v: Vec<String>) -> String {
+        if v.is_empty() {
+            "-".into()
+        } else {
+            v.join(",")
+        }
+    }
+    match parse_arguments(arguments, cwd) {
+        CompilerArguments::NotCompilation => "not_compilation".into(),
+        CompilerArguments::CannotCache(why, _) => format!("cannot_cache {}", why),
+        CompilerArguments::Ok(p) => {
+            let args = p
+                .arguments
+                .iter()
+                .map(|a| {
+                    format!(
+                        "{}:{}",
+                        hx(a.to_os_string().as_bytes()),
+                        a.get_data()
+                            .cloned()
+                            .map(|d| hx(IntoArg::into_arg_os_string(d).as_bytes()))
+                            .unwrap_or("~".into())
+                    )
+                })
+                .collect();
+            let paths = |v: &[PathBuf]| list(v.iter().map(|x| hx(x.as_os_str().as_bytes())).collect());
+            let opt = |v: &Option<PathBuf>| v.as_ref().map(|x| hx(x.as_os_str().as_bytes())).unwrap_or("~".into());
+            let mut emit: Vec<String> = p.emit.iter().map(|x| hx(x.as_bytes())).collect();
+            emit.sort();
+            format!(
+                "ok args={} out_dir={} externs={} link_paths={} staticlibs={} crate_name={} rlib={} staticlib={} dep_info={} profile={} gcno={} emit={} color={} json={} target_json={}",
+                list(args),
+                hx(p.output_dir.as_os_str().as_bytes()),
+                paths(&p.externs),
+                paths(&p.crate_link_paths),
+                paths(&p.staticlibs),
+                hx(p.crate_name.as_bytes()),
+                p.crate_types.rlib as u8,
+                p.crate_types.staticlib as u8,
+                opt(&p.dep_info),
+                opt(&p.profile),
+                opt(&p.gcno),
+                list(emit),
+                match p.color_mode {
+                    ColorMode::On => "on",
+                    ColorMode::Off => "off",
+                    ColorMode::Auto => "auto",
+                },
+                p.has_json as u8,
+                opt(&p.target_json)
+            )
+        }
+    }
+}
+
 #[allow(clippy::suspicious_else_formatting)] // False positive
 #[async_trait]
 impl<T> CompilerHasher<T> for RustHasher
